@@ -8,7 +8,7 @@ NOT_APPLICABLE = {}
 HOOK_COMMITS = ["c97a6ad", "2351cfe"]
 SAN = "runtime monitoring: "
 # checks that exist but are not yet green on the unchanged tree (triage pending) are not claimed
-NOT_READY = {"C27", "C15", "C26", "C14", "C18", "C29"}
+NOT_READY = set()
 
 
 def plan(pid):
